@@ -20,6 +20,10 @@ type concRewriter struct {
 	info   *types.Info
 	counts map[string]int
 	errs   []string
+	// inRewrite holds the nodes whose rewrite is in progress (their own text is asked for by fallbacks)
+	inRewrite map[ast.Node]bool
+	// runtimeName is the name package runtime is imported under, when a call into it was taken over
+	runtimeName string
 }
 
 func (r *concRewriter) off(p token.Pos) int { return r.fset.Position(p).Offset }
@@ -44,6 +48,22 @@ func (r *concRewriter) isWaitGroup(e ast.Expr) bool {
 	}
 	n, ok := t.(*types.Named)
 	return ok && n.Obj().Pkg() != nil && n.Obj().Pkg().Path() == "sync" && n.Obj().Name() == "WaitGroup"
+}
+
+// isProcsCall: runtime.GOMAXPROCS(n) / runtime.NumCPU(), an answer of the environment
+func (r *concRewriter) isProcsCall(x *ast.CallExpr) bool {
+	sel, ok := x.Fun.(*ast.SelectorExpr)
+	if !ok {
+		return false
+	}
+	id, ok := sel.X.(*ast.Ident)
+	if !ok {
+		return false
+	}
+	if pn, ok := r.info.Uses[id].(*types.PkgName); ok && pn.Imported().Path() == "runtime" {
+		return sel.Sel.Name == "GOMAXPROCS" || sel.Sel.Name == "NumCPU"
+	}
+	return false
 }
 
 func (r *concRewriter) isAtomicPkg(id *ast.Ident) bool {
@@ -77,6 +97,9 @@ func (r *concRewriter) rewritable(n ast.Node) bool {
 				return len(x.Args) == 1 && r.isChan(x.Args[0])
 			}
 		}
+		if r.isProcsCall(x) {
+			return true
+		}
 		if sel, ok := x.Fun.(*ast.SelectorExpr); ok {
 			if id, ok := sel.X.(*ast.Ident); ok && r.isAtomicPkg(id) {
 				return true
@@ -92,10 +115,14 @@ func (r *concRewriter) rewritable(n ast.Node) bool {
 	return false
 }
 
-// text renders n with every outermost rewritable descendant replaced.
+// text renders n with every outermost rewritable descendant replaced (and n
+// itself when it is rewritable).
 func (r *concRewriter) text(n ast.Node) string {
 	if n == nil {
 		return ""
+	}
+	if !r.inRewrite[n] && r.rewritable(n) {
+		return r.rewrite(n)
 	}
 	type rep struct {
 		from, to int
@@ -122,6 +149,11 @@ func (r *concRewriter) text(n ast.Node) string {
 }
 
 func (r *concRewriter) rewrite(n ast.Node) string {
+	if r.inRewrite == nil {
+		r.inRewrite = map[ast.Node]bool{}
+	}
+	r.inRewrite[n] = true
+	defer delete(r.inRewrite, n)
 	switch x := n.(type) {
 	case *ast.SendStmt:
 		r.counts["send"]++
@@ -250,6 +282,12 @@ func (r *concRewriter) rewrite(n ast.Node) string {
 				return "mc.Len(" + r.text(x.Args[0]) + ")"
 			}
 		}
+		if r.isProcsCall(x) {
+			// the number of processors is an answer of the environment: the harness decides it
+			r.counts["procs"]++
+			r.runtimeName = r.text(x.Fun.(*ast.SelectorExpr).X)
+			return "mc.Procs()"
+		}
 		sel := x.Fun.(*ast.SelectorExpr)
 		if id, ok := sel.X.(*ast.Ident); ok && r.isAtomicPkg(id) {
 			// a package-level sync/atomic function: a scheduling point, then the real operation
@@ -314,6 +352,9 @@ func instrumentFile(cp *checkedPkg, name string, path string) (string, map[strin
 	}
 	sb.Write(src[prev:])
 	sb.WriteString("\nvar _ = mc.Active\n")
+	if r.runtimeName != "" {
+		sb.WriteString("\nvar _ = " + r.runtimeName + ".NumCPU // keeps the import used\n")
+	}
 	if len(r.errs) > 0 {
 		return "", nil, fmt.Errorf("%s", strings.Join(r.errs, "; "))
 	}
